@@ -26,6 +26,8 @@ for name in sorted(d for d in os.listdir(S) if os.path.isdir(os.path.join(S, d))
     else:
         verdict, how = f'error rc={r.get("exit")}', (r.get('stderr_tail') or '')[-120:]
     note = meta.get('strengthened', '')
+    for other, ro in (r.get('also') or {}).items():
+        how += f' [{other}: ' + ('failing input' if ro.get('exit') == 1 and not ro.get('no_failing_input') else 'caught' if ro.get('exit') == 1 else 'not caught') + ']'
     rows.append((name, meta['property'], files, verdict, how, str(r.get('seconds', '')), note))
 with open(os.path.join(S, 'RESULTS.md'), 'w') as f:
     f.write('# Seeded breaking changes: which check catches which change\n\n'
